@@ -80,9 +80,48 @@ Theorem C12_refines_greedy :
     NoDup (map n_id nodes) -> tie_free E -> rank1_ok chl -> rank1_ok chr ->
     oto_loop dfs (df_neighbours thr E) chl chr fuel 1 (df_representatives nodes) = Some out ->
     forall v c s w c' s', In (v, c, s) out -> In (w, c', s') out ->
-      (c = c' <-> greedy_clusters dfs thr nodes E v = greedy_clusters dfs thr nodes E w).
+      (c = c' <-> greedy_clusters le_prob dfs thr nodes E v = greedy_clusters le_prob dfs thr nodes E w).
 Proof. exact refines_greedy. Qed.
 Print Assumptions C12_refines_greedy.
+
+(* ---- the ORDER BY with the tie-break `match_probability desc, least(ids), greatest(ids)`
+   (fix of KF-C12-ties-disconnected): both windows rank an edge and its reverse alike and no two
+   different pairs equal, so ties in probability are harmless.  Hypothesis: no pair of records is
+   listed twice with the same probability (Splink's predictions list every pair once).
+   A chooser satisfying the tie-break contract also satisfies rank1_ok, so every theorem above
+   applies to the tie-broken code as well. *)
+Theorem C12_tiebreak_is_rank1 :
+  forall ch, rank1_ok_for le_tiebreak ch -> rank1_ok ch.
+Proof. exact le_tiebreak_refines_prob. Qed.
+Print Assumptions C12_tiebreak_is_rank1.
+
+Theorem C12_tiebreak_connected :
+  forall dfs thr (chl chr : chooser) fuel nodes E out,
+    NoDup (map n_id nodes) -> nodup_pairs E ->
+    rank1_ok_for le_tiebreak chl -> rank1_ok_for le_tiebreak chr ->
+    oto_loop dfs (df_neighbours thr E) chl chr fuel 1 (df_representatives nodes) = Some out ->
+    forall v w c s s', In (v, c, s) out -> In (w, c, s') out -> conn_in thr E (in_class out c) v w.
+Proof. exact connected_tiebreak. Qed.
+Print Assumptions C12_tiebreak_connected.
+
+Theorem C12_tiebreak_maximal :
+  forall dfs thr (chl chr : chooser) fuel nodes E out,
+    NoDup (map n_id nodes) -> nodup_pairs E ->
+    rank1_ok_for le_tiebreak chl -> rank1_ok_for le_tiebreak chr ->
+    oto_loop dfs (df_neighbours thr E) chl chr fuel 1 (df_representatives nodes) = Some out ->
+    forall v w, ~ admissible_cross dfs thr E out v w.
+Proof. exact maximal_tiebreak. Qed.
+Print Assumptions C12_tiebreak_maximal.
+
+Theorem C12_tiebreak_refines_greedy :
+  forall dfs thr (chl chr : chooser) fuel nodes E out,
+    NoDup (map n_id nodes) -> nodup_pairs E ->
+    rank1_ok_for le_tiebreak chl -> rank1_ok_for le_tiebreak chr ->
+    oto_loop dfs (df_neighbours thr E) chl chr fuel 1 (df_representatives nodes) = Some out ->
+    forall v c s w c' s', In (v, c, s) out -> In (w, c', s') out ->
+      (c = c' <-> greedy_clusters le_tiebreak dfs thr nodes E v = greedy_clusters le_tiebreak dfs thr nodes E w).
+Proof. exact refines_greedy_tiebreak. Qed.
+Print Assumptions C12_tiebreak_refines_greedy.
 
 (* for ALL tie-breaks (ties included): every cluster lies inside one connected component of the
    >= threshold graph (the path to the representative may leave the cluster) *)
@@ -141,7 +180,7 @@ Example C12_example_tiefree :
     [(0,0);(1,1);(2,2);(3,0);(4,1);(5,2);(6,0);(7,1);(8,2)]
     [(0,1,(90#100)%Q);(1,2,(70#100)%Q);(3,5,(85#100)%Q);(4,5,(91#100)%Q);(6,5,(80#100)%Q);(6,7,(71#100)%Q)]
   = Some [(0,0);(1,0);(2,0);(3,3);(4,3);(5,3);(6,6);(7,6);(8,8)]
-  /\ map (greedy_clusters [0; 2] (Some (1 # 2)%Q)
+  /\ map (greedy_clusters le_prob [0; 2] (Some (1 # 2)%Q)
             [(0,0);(1,1);(2,2);(3,0);(4,1);(5,2);(6,0);(7,1);(8,2)]
             [(0,1,(90#100)%Q);(1,2,(70#100)%Q);(3,5,(85#100)%Q);(4,5,(91#100)%Q);(6,5,(80#100)%Q);(6,7,(71#100)%Q)])
          [0;1;2;3;4;5;6;7;8]
@@ -149,4 +188,19 @@ Example C12_example_tiefree :
 Proof.
   split; [|split; [exact first_max_ok|split; [exact last_max_ok|split; vm_compute; reflexivity]]].
   unfold tie_free. repeat constructor; intro H; unfold Qeq in H; simpl in H; discriminate.
+Qed.
+
+(* non-vacuity of the tie-break theorems: the witness of KF-C12-ties-disconnected (ranks of the
+   composite ids: b-1=0, b-30=1, c-11=2, c-2=3, ds_x-101=4; datasets b=0, c=1, ds_x=2); with the
+   tie-break both windows pick the edge 1-4 first and the clusters come out connected *)
+Example C12_example_tiebreak :
+  let E := [(2,4,(800#1024)%Q);(3,4,(800#1024)%Q);(1,4,(800#1024)%Q);(3,0,(845#1024)%Q)] in
+  nodup_pairs E /\ rank1_ok_for le_tiebreak (max_by le_tiebreak) /\
+  one_to_one_clustering [1] (Some (0#1)%Q) (max_by le_tiebreak) (max_by le_tiebreak) 20
+    [(0,0);(3,1);(1,0);(2,1);(4,2)] E
+  = Some [(0,0);(3,0);(1,1);(2,1);(4,1)].
+Proof.
+  split; [|split; [apply max_by_ok; exact le_tiebreak_order|vm_compute; reflexivity]].
+  unfold nodup_pairs. repeat constructor; intros (H & H1 & H2); vm_compute in H1; try discriminate H1;
+    vm_compute in H2; discriminate H2.
 Qed.
